@@ -44,7 +44,10 @@ RULE_ADDED = (
               'ted request right after one the device refused; faults in the bootloader part of'
               ' a repair (mode .. unlock) - a stop at the retries query is a known finding. '
               ' '
-              'Round 16: repairs through the bootloader with exactly two PIN retries left. ')
+              'Round 16: repairs through the bootloader with exactly two PIN retries left. '
+              ' '
+              'Round 17: minutes to a day of silence between two failed reconnections of one ou'
+              'tage. ')
 RULE = RULE + " " + RULE_ADDED.strip()
 ASSUMPTIONS = [
     "fault kinds are those of the HID transport (write() < 0, read error, time-out) as the "
@@ -135,6 +138,9 @@ def run_shard(spec, acc):
                                     rng.random() < (0.5 if thorough else 0.15):
                                 variants.append("after-refusal:%04x" % rng.choice(
                                     [0x6A8F, 0x6A8F, 0x6B10, 0x69A0, 0x6BFF, 0x6D00]))
+                            if j >= 2 and rng.random() < (0.5 if thorough else 0.3):
+                                variants.append("quiet-outage:%d" % rng.choice(
+                                    [130, 601, 3601, 86401]))
                             if j == 0 and rng.random() < (0.5 if thorough else 0.15):
                                 variants.append("quiet:%d" % rng.choice([121, 130, 601, 3601,
                                                                          86401]))
@@ -216,7 +222,7 @@ def run_case(acc, c, roles=None):
     """(variant quiet:<seconds>: the clock the middleware reads - the name `time` in its
     modules - jumps ahead by that much between the bring-up and the faulted request: a
     link that fails after a quiet night fails like any other)"""
-    if not c["variant"].startswith("quiet:"):
+    if not c["variant"].startswith(("quiet:", "quiet-outage:")):
         return run_case_(acc, c, roles)
     from .c12 import JumpClock
     jc = JumpClock()
@@ -407,6 +413,11 @@ def run_case_(acc, c, roles=None):
             if any(e["ev"] == "apdu" for e in s.bus.events[mark:]):
                 return bad("version-request-sent-apdus-while-repair-pending")
         for attempt in range(c["j"]):
+            if attempt >= 1 and c["variant"].startswith("quiet-outage:") and "jc" in _QUIET:
+                # (the outage lasts: minutes to a day go by between two requests that find
+                # no device - the next one gets the same answer and tries again)
+                _QUIET["jc"].offset += float(c["variant"].split(":")[1])
+                acc.count("failed_reconnections_after_a_long_silence")
             s.bus.arm({})
             mark = len(s.bus.events)
             r2, e2, _ = s.request(fu.request)
